@@ -25,6 +25,9 @@ def design_check(ctx, label, module, constants, invariants=(), properties=(),
     res = tlc.run(module, cfg, workers=workers, simulate=simulate, depth=depth,
                   seed=(ctx.seed if simulate is not None else None), timeout=timeout, heap=heap)
     ctx.tlc(label, res)
+    ctx.log('TLC %s: %s %d distinct / %d generated, depth %d, %.1fs%s' % (
+        label, res.mode, res.distinct, res.generated, res.depth, res.wall_s,
+        ' VIOLATED: ' + ','.join(v['name'] for v in res.violations) if res.violations else ''))
     for v in res.violations:
         if expect_violation and v['name'] in expect_violation:
             continue
@@ -34,15 +37,59 @@ def design_check(ctx, label, module, constants, invariants=(), properties=(),
     out = None
     if emit:
         if simulate is None:
-            out = tlc.Graph.from_printed(res.printed)
+            out = tlc.Graph.from_lines(res.lines)
         else:
             out = tlc.behaviours_from_printed(res.printed)
+    res.printed = None      # free the raw output
+    res.out = ''
     return res, out
+
+
+def tlc_only(label, module, constants, invariants=(), properties=(), view='View',
+             constraints=(), action_constraints=(), workers=None, emit=False, simulate=None,
+             depth=None, timeout=900, seed=None, heap='8g', deadlock=False, spec=None):
+    """Thread-safe half of design_check: just run TLC (no ctx access)."""
+    cons = list(constraints)
+    acs = list(action_constraints)
+    if emit:
+        cons.append('EmitInit')
+        acs.append('EmitEdge')
+        workers = 1
+    cfg = tlc.make_cfg(constants=constants, invariants=invariants, properties=properties,
+                       view=view, constraints=cons, action_constraints=acs, spec=spec,
+                       deadlock=deadlock)
+    return tlc.run(module, cfg, workers=workers, simulate=simulate, depth=depth,
+                   seed=(seed if simulate is not None else None), timeout=timeout, heap=heap)
+
+
+def account(ctx, label, module, constants, res, emit=False, simulate=False,
+            expect_violation=None):
+    """Main-thread half: evidence accounting, verdicts, graph / behaviour extraction."""
+    ctx.tlc(label, res)
+    ctx.log('TLC %s: %s %d distinct / %d generated, depth %d, %.1fs%s' % (
+        label, res.mode, res.distinct, res.generated, res.depth, res.wall_s,
+        ' VIOLATED: ' + ','.join(v['name'] for v in res.violations) if res.violations else ''))
+    for v in res.violations:
+        if expect_violation and v['name'] in expect_violation:
+            continue
+        ctx.violation('TLC: %s violated in %s (%s)' % (v['name'], module, label),
+                      'tlc:%s:%s' % (label, v['name']),
+                      replay={'module': module, 'constants': constants, 'trace': v['trace']})
+    out = None
+    if emit:
+        out = (tlc.behaviours_from_printed(res.printed) if simulate
+               else tlc.Graph.from_lines(res.lines))
+    res.printed = None
+    res.out = ''
+    return out
 
 
 def conform(ctx, label, source, make_adapter, mon_module=None, mon_invariants=(),
             mon_properties=(), mon_constants=None, sample=None, budget_s=None,
-            procs=None, strict=False):
+            procs=None, strict=False, monitor_all=False, known=()):
+    """known: list of (tolerance constant, formulas) -- for walks, the observed sequences
+    are additionally judged with that tolerance switched off; a falsified formula is
+    reported with signature 'strict:<constant>:…' (matched by known_findings.json)."""
     """Replay `source` (Graph or list of behaviours) into the implementation.
 
     Divergences are handed to the TLC monitor; a formula falsified on an observed
@@ -54,18 +101,51 @@ def conform(ctx, label, source, make_adapter, mon_module=None, mon_invariants=()
         r = replay.replay_graph(source, make_adapter, rng=rng, sample=sample,
                                 budget_s=budget_s, procs=procs)
     else:
-        r = replay.replay_behaviours(source, make_adapter, budget_s=budget_s, procs=procs)
+        r = replay.replay_behaviours(source, make_adapter, budget_s=budget_s, procs=procs,
+                                     keep_obs=monitor_all or bool(known))
     ctx.traces += r['paths']
     ctx.replay_steps += r['steps']
-    summary = {k: v for k, v in r.items() if k != 'divergences'}
+    summary = {k: v for k, v in r.items() if k not in ('divergences', 'observations')}
     summary['label'] = label
     summary['n_divergences'] = len(r['divergences'])
+    ctx.log('replay %s: %d paths, %d steps, %.1fs, %d divergences' % (
+        label, r['paths'], r['steps'], r['wall_s'], len(r['divergences'])))
     ctx.extra.setdefault('replays', []).append(summary)
     divs = r['divergences']
     if divs:
         ctx.log('%s: %d divergence(s), first: %s' % (label, len(divs), divs[0]['signature']))
         judge(ctx, label, divs, mon_module, mon_invariants, mon_properties, mon_constants,
               strict=strict)
+    obs = r.get('observations') or []
+    if obs and mon_module and monitor_all:
+        # property formulas evaluated by TLC on *every* observed execution, conformant or not
+        _, verdicts = monitor.check(mon_module, obs, invariants=mon_invariants,
+                                    properties=mon_properties, constants=mon_constants)
+        ctx.extra['observed_traces_monitored'] = ctx.extra.get('observed_traces_monitored', 0) + len(obs)
+        seen = set()
+        for v in verdicts:
+            if v['name'] in seen or v['trace'] is None:
+                continue
+            seen.add(v['name'])
+            ctx.violation('observed execution of the real code falsifies %s (%s)' % (v['name'], label),
+                          'observed:%s:%s' % (label, v['name']),
+                          replay={'obs': obs[v['trace']], 'at': v['at']})
+    for tol, formulas in known:
+        if not (obs and mon_module):
+            break
+        mc = dict(mon_constants, **{tol: 'FALSE'})
+        invs = [f for f in formulas if f in mon_invariants]
+        props = [f for f in formulas if f in mon_properties]
+        _, verdicts = monitor.check(mon_module, obs, invariants=invs, properties=props, constants=mc)
+        seen = set()
+        for v in verdicts:
+            if v['name'] in seen or v['trace'] is None:
+                continue
+            seen.add(v['name'])
+            ctx.violation('with tolerance %s off, an observed execution of the real code falsifies %s (%s)'
+                          % (tol, v['name'], label),
+                          'strict:%s:%s' % (tol, v['name']),
+                          replay={'obs': obs[v['trace']], 'at': v['at']})
     return r
 
 
